@@ -36,6 +36,7 @@ let run_mm (mfast : coq_Z) (ops : string list) : string =
   Stdlib.List.iter (fun tok ->
     let w = split_on ',' tok in
     let c = (Stdlib.List.hd w).[0] in
+    let inject = String.length (Stdlib.List.hd w) > 1 && (Stdlib.List.hd w).[1] = '!' in
     let a = Array.of_list (Stdlib.List.map z_of_string (Stdlib.List.tl w)) in
     let cur = fst !s in
     let es = fst cur in
@@ -47,6 +48,14 @@ let run_mm (mfast : coq_Z) (ops : string list) : string =
       | 'A' -> (match find a.(0) es with
                 | None -> "skip"
                 | Some _ -> apply (OAddAt (a.(0), a.(1))); Printf.sprintf "it(%s,%s)" (zs a.(0)) (zs a.(1)))
+      | 'n' -> (match find a.(0) es with
+                | Some _ -> "skip"
+                | None -> apply (OAddKey (a.(0), a.(1)));
+                    (match find a.(0) (fst (fst !s)) with
+                     | Some e -> Printf.sprintf "key(%s,%s,%d)" (zs e.ekey) (zs e.etag) (Stdlib.List.length (evals e))
+                     | None -> "key(?)"))
+      | 'G' -> let rec trip i = if i + 2 < Array.length a then ((a.(i), a.(i+1)), a.(i+2)) :: trip (i + 3) else [] in
+               apply (OAddRange (trip 0)); "ok"
       | 'i' -> apply (OInsertKey (a.(0), a.(1)));
                (match find a.(0) (fst (fst !s)) with
                 | Some e -> Printf.sprintf "key(%s,%s,%d)" (zs e.ekey) (zs e.etag) (Stdlib.List.length (evals e))
@@ -56,7 +65,11 @@ let run_mm (mfast : coq_Z) (ops : string list) : string =
                (match find a.(0) es with
                 | None -> "skip"
                 | Some e -> if i >= Stdlib.List.length (evals e) then "skip" else begin
-                    apply (ORemove (a.(0), nat_of_int i));
+                    (* r! : the allocation of a Shrink inside RemoveBack fails (swallowed): failure schedule [true] *)
+                    (if inject then
+                       (match step1f mfast cur (ORemove (a.(0), nat_of_int i)) [true] with
+                        | ((m', _), _) -> s := (m', snd !s))
+                     else apply (ORemove (a.(0), nat_of_int i)));
                     match find a.(0) (fst (fst !s)) with
                     | Some e' -> let vs = evals e' in
                         if i < Stdlib.List.length vs then Printf.sprintf "it(%s,%s)" (zs a.(0)) (zs (Stdlib.List.nth vs i)) else "nx"
@@ -105,6 +118,7 @@ let run_um (mfast : coq_Z) (kprobe : int) (ops : string list) : string =
       | ErThrow -> "throw" in
     let ret = match c with
       | 'i' -> setcur (w_insert mfast cur a.(0) a.(1)); "ok"
+      | 'j' -> setcur (step1 mfast cur (OAdd (a.(0), a.(1), a.(2)))); "ok"     (* insert of the key object (class, identity) *)
       | 'e' -> let m = w_erase_key mfast cur a.(0) in
                let r = Printf.sprintf "n%s" (zs (BinInt.Z.sub (get_count cur) (get_count m))) in setcur m; r
       | 'x' -> let i = int_of_z a.(1) in
